@@ -513,6 +513,9 @@ def _plume_particle_specs(rng, kind, comp, rich, nmax=3):
         else:
             p = {'dbm': insol_spec(rng, True, rich), 'yk': [1.], 'mb0': rng.uniform(0.02, 0.5), 'de': rng.uniform(0.001, 0.005)}
         p.update(wrap_spec(rng, rich))
+        # released warmer / colder than the ambient water (heat transfer stays on: K_T0 > 0), or at ambient temperature
+        # (the constructor then switches heat transfer off: K_T0 = 0); the first particle is always off-ambient
+        p['dT'] = rng.choice([-1., 1.]) * rng.uniform(3., 20.) if (i == 0 or rng.random() < 0.5) else 0.
         out.append(p)
     return out
 
@@ -545,7 +548,7 @@ def run_bpm(spec, prf):
         d = build_dbm(p['dbm'])
         with quiet():
             m0, T0, nb0, P, Sa, Tamb = dispersed_phases.initial_conditions(prf, z0, d, np.array(p['yk']), p['mb0'], 2,
-                                                                          p['de'], Ta)
+                                                                          p['de'], Ta + p.get('dT', 0.))
             parts.append(bent_plume_model.Particle(0., 0., z0, d, m0, T0, nb0, p['lambda_1'], P, Sa, Tamb, K=p['K'],
                                                    K_T=p['K_T'], fdis=p['fdis'], t_hyd=p['t_hyd'],
                                                    lag_time=p['lag_time']))
@@ -578,7 +581,7 @@ def run_spm(spec, prf):
         d = build_dbm(p['dbm'])
         with quiet():
             m0, T0, nb0, P, Sa, Tamb = dispersed_phases.initial_conditions(prf, z0, d, np.array(p['yk']), p['mb0'], 2,
-                                                                          p['de'], Ta)
+                                                                          p['de'], Ta + p.get('dT', 0.))
             parts.append(dispersed_phases.PlumeParticle(d, m0, T0, nb0, p['lambda_1'], P, Sa, Tamb, K=p['K'],
                                                         K_T=p['K_T'], fdis=p['fdis'], t_hyd=p['t_hyd'],
                                                         lag_time=p['lag_time']))
